@@ -11,7 +11,7 @@ IntKinds == {"int", "int64", "uint64", "uint", "uintptr"}      \* (int32 etc.: a
 Kinds == {"ptr", "error", "any", "slice", "map", "chan", "func", "struct", "handle", "array", "int", "float", "string", "bool"} \cup IntKinds   \* handle: a struct with exactly one pointer field
 \* "intconst": a condition written as a plain constant (type int) on an integer parameter of kind k (When path only):
 \* it selects exactly the calls whose argument has that value - compared as a value of the declared type, however large
-Classes == {"nil", "typednil", "zero", "val", "concrete", "nilconcrete", "lookalike", "samesize", "diffsize", "intconst"}
+Classes == {"nil", "typednil", "zero", "val", "concrete", "nilconcrete", "lookalike", "samesize", "diffsize", "otherkind", "intconst"}
 Nilable == {"ptr", "error", "any", "slice", "map", "chan", "func"}
 IfaceK == {"error", "any"}
 
@@ -26,6 +26,8 @@ Cell(k, c) == CASE c = "intconst" -> k \in IntKinds
                 [] c = "lookalike" -> k \in {"struct", "ptr", "handle"}
                 [] c = "samesize" -> k \in {"int", "float", "struct"}
                 [] c = "diffsize" -> k \in {"int", "float", "struct", "array", "string", "bool", "slice", "map"}
+                \* a value of another KIND whose size differs: a pointer, a scalar, a string, a slice where a struct / pointer / chan / func is declared
+                [] c = "otherkind" -> k \in {"struct", "ptr", "handle", "chan", "func"}
 
 Req(k, c) == CASE c = "intconst" -> "exact"
                [] c = "nil" -> (IF k \in Nilable THEN "typedzero" ELSE "free")
@@ -33,14 +35,14 @@ Req(k, c) == CASE c = "intconst" -> "exact"
                [] c \in {"concrete", "nilconcrete"} -> "boxed"
                [] c = "lookalike" -> "retyped"
                [] c = "samesize" -> "free"            \* same size, other type or layout: the statement is silent
-               [] c = "diffsize" -> "rejected"
+               [] c \in {"diffsize", "otherkind"} -> "rejected"
 
 \* toValue, in the order of its arms
 Impl(k, c) ==
     IF c = "intconst" THEN "exact" ELSE        \* arg.equal compares two numbers by their decimal text
     LET isnil == c = "nil" IN
     LET sameType == c \in {"typednil", "zero", "val"} IN
-    LET sizeEq == c # "diffsize" IN
+    LET sizeEq == c \notin {"diffsize", "otherkind"} IN
     IF ~isnil /\ ~sameType /\ k \in {"struct", "ptr", "handle"}
     THEN (IF ~sizeEq THEN "rejected" ELSE "retyped")                                    \* cast
     ELSE IF isnil /\ k \in (Nilable \cup {"array"}) THEN "typedzero"
